@@ -49,7 +49,9 @@ SECP = ("TraceSecp.tla", "TraceSecp.cfg")
 FIELD = ("TraceField.tla", "TraceField.cfg")
 PASSES = {
     "C09": [("C09", ("main",), SECP, 1.0, False, None), ("C09w", ("main", "field"), FIELD, 1.0, True, None)],
-    "C11": [("C11", ("main", "field"), FIELD, 1.0, False, None)],
+    "C11": [("C11", ("main", "field"), FIELD, 1.0, False, None),
+            # the field primitives the map is composed of, on boundary / structured operands: any disagreement counts
+            ("C11f", ("main", "field"), FIELD, 1.0, False, {"result", "frame", "noncanonical-stored-value", "noncanonical-bytes"})],
     "C12": [("C12", ("main", "field"), FIELD, 1.0, False, None)],
     "C19": [("C19", ("main", "sched"), ("TraceSched.tla", "TraceSched.cfg"), 1.0, False, None)],
     "C15": [("C15", ("main",), ("TraceMem.tla", "TraceMem.cfg"), 1.0, False, None),
@@ -383,6 +385,32 @@ def run_mc_stage(prop, tier, specdir, work):
                 os.makedirs(os.path.dirname(keep), exist_ok=True)
                 open(keep, "w").write(r["out"])
                 raise Inconclusive("toy-scale model checking of %s failed or timed out (a fault of the specification or of its bounds, not of the code): %s" % (cfg, keep))
+    if prop == "C02":
+        # the lift (DESIGN 9.2): the real addition code, recorded as three-address programs, over every toy input
+        import lift
+        try:
+            r = lift.run_lift(specdir, work)
+        except Inconclusive as e:
+            r = None
+            log("  lift: skipped (%s)" % str(e)[:300])
+        if r is not None:
+            lifted = [p["name"] for p in r["programs"] if p["liftable"]]
+            notl = ["%s (%s)" % (p["name"], p["why"]) for p in r["programs"] if not p["liftable"]]
+            r["cfg"] = "MC_Lift.cfg on programs recorded from the working tree: " + ", ".join("%s[%d instr]" % (p["name"], p["instructions"]) for p in r["programs"] if p["liftable"])
+            mc_results.append(r)
+            log("  lift: %s interpreted over every toy pair: %s (distinct=%d, %.0fs); not liftable: %s"
+                % (", ".join(lifted) or "nothing", "law holds" if r["ok"] else "LAW VIOLATED at toy scale (a lead)", r["distinct"], r["wall"], "; ".join(notl) or "-"))
+            if not r["ok"]:
+                if "is violated" in r["out"]:
+                    # a lead only: the verdict comes from the 256-bit traces below; remember it for the evidence
+                    r["ok"] = True
+                    r["lead"] = "the recorded addition code breaks the group law on some toy pair"
+                    keep = os.path.join(VERIF, "replays", "C02_lift_lead.out")
+                    os.makedirs(os.path.dirname(keep), exist_ok=True)
+                    open(keep, "w").write(r["out"][-20000:])
+                    log("  lift: TLC counterexample kept in %s" % keep)
+                else:
+                    raise Inconclusive("MC_Lift failed for a reason other than the invariant: " + r["out"][-800:])
     if tier == "thorough":
         for (module, cfg, old, new) in DEVIATIONS.get(prop, []):
             txt = open(os.path.join(specdir, cfg)).read()
@@ -638,6 +666,9 @@ def check_trace_property(prop, tier, seed, work, replay=None, scale=1.0):
                 else:
                     inconclusive.append(rec)
 
+    if any(r.get("lead") for r in mc_results) and not violations:
+        machinery.append("the lift found a toy-scale counterexample in the recorded addition code, but no recorded 256-bit execution "
+                         "disagreed with the specification: an unconfirmed lead (see replays/C02_lift_lead.out), not a violation")
     os.makedirs(os.path.join(VERIF, "replays"), exist_ok=True)
     out_lines = []
     seen = set()
@@ -679,7 +710,7 @@ def check_trace_property(prop, tier, seed, work, replay=None, scale=1.0):
         "traces_validated_against_impl": sum(sm["histories"] for sm in summaries) if not machinery else 0,
         "events_validated": total_lines,
         "samples": [json.loads(json.dumps(x)[:1500] if len(json.dumps(x)) <= 1500 else json.dumps({"op": x.get("op"), "note": "large event elided"})) for x in samples] or [{"note": "no events"}],
-        "toy_model_checking": [{k: r[k] for k in ("module", "cfg", "ok", "generated", "distinct", "wall")} for r in mc_results],
+        "toy_model_checking": [{k: r.get(k) for k in ("module", "cfg", "ok", "generated", "distinct", "wall", "lead", "programs") if k in r} for r in mc_results],
         "trace_files": len(jobs),
         "passes": [p[0] for p in passes],
         "accessor": all(sm.get("accessor") for sm in summaries) if summaries else None,
